@@ -9,8 +9,8 @@ Every parser that contains no `attempt` is `Tight`: transparent to a fault that 
 returning exactly the injected error when it is.  So is `getDirectoryCounts` (since the D18 repair its
 probe seek is `?`-propagated and the one `attempt` only swallows `InvalidArchive`, never an I/O error of any kind).
 `openArchive` turns a failed seek into `InvalidArchive`: it is `Uniform` and `ErrOnFire`.  `newAppend`
-ignores the result of its last seek: the one place of the reader side where a fired fault is not
-reported (`newAppend_ignored_seek`).  The streaming reader is `Tight` as well.
+does the same with its first seek and (since the D22 repair) `?`-propagates its last one, which used to be
+ignored: it is `Uniform` and `ErrOnFire` too (`newAppend_errOnFire`).  The streaming reader is `Tight` as well.
 -/
 
 namespace ZipVerif.Model
@@ -278,9 +278,22 @@ macro_rules | `(tactic| fault_step) => `(tactic| with_reducible exact newAppend_
 theorem newAppend_uniform : Uniform newAppend := by
   unfold newAppend; fault
 
+/-- `new_append`: a fired fault — at ANY of its I/O calls, the last seek included — is an error (the
+injected one; `InvalidArchive` when it hit the first seek to the directory start, which the crate maps
+to that). -/
+theorem newAppend_errOnFire : ErrOnFire newAppend := by
+  unfold newAppend; fault
+
+/-- **`new_append` succeeding under a fault** is the failure-free call: the same writer state, the same
+sink (bytes, position — the directory start —, call count).  Since D22 was repaired there is no
+exception: the seek that repositions the writer onto the old central directory reports its failure. -/
+theorem newAppend_ok_faultfree {k : Nat} {d d' : Dev} {s : WState}
+    (h : newAppend (some k) d = (.ok s, d')) : newAppend none d = (.ok s, d') :=
+  ErrOnFire.ok_faultfree newAppend_uniform newAppend_errOnFire h
+
 open M in
-/-- `new_append` up to (not including) its last, ignored seek: the writer state and the directory
-start it is about to seek to. -/
+/-- `new_append` up to (not including) its last seek: the writer state and the directory start it is
+about to seek to. -/
 def newAppendCore : M (WState × Nat) := do
   let (footer, cdeStart) ← findAndParseEocd
   if footer.diskNumber != footer.diskWithCd then throw .unsupportedArchive else do
@@ -294,7 +307,7 @@ def newAppendCore : M (WState × Nat) := do
       pure ({ WState.init with files, comment := footer.comment, writingRaw := true }, directoryStart)
 
 theorem newAppend_eq :
-    newAppend = (newAppendCore >>= fun p => M.attempt (M.seek (.start p.2)) >>= fun _ => pure p.1) := by
+    newAppend = (newAppendCore >>= fun p => M.seek (.start p.2) >>= fun _ => pure p.1) := by
   unfold newAppend newAppendCore
   rw [M.bind_assoc]
   apply M.bind_congr
@@ -321,58 +334,28 @@ theorem newAppend_eq :
 theorem newAppendCore_uniform : Uniform newAppendCore := by
   unfold newAppendCore; fault
 
-/-- `new_append` before its last seek: a fired fault is an error. -/
-theorem newAppendCore_errOnFire : ErrOnFire newAppendCore := by
-  unfold newAppendCore; fault
-
-/-- **The ignored seek of `new_append`.**  If the fault-free `new_append` succeeds — `d1` being the
-sink after the central directory was parsed, `ds` the directory start —, it leaves the sink at `ds`;
-when exactly its last seek fails it returns the *same* writer state, `Ok`, with the sink still at
-`d1.pos`, i.e. behind the parsed central directory (for an archive without gap: at the end record).
-The entries written next then go behind the old directory, which stays in the file as dead bytes. -/
-theorem newAppend_ignored_seek {d d1 : Dev} {s : WState} {ds : Nat}
+/-- **The repositioning seek of `new_append` is reported** (D22, repaired: `seek(..)?` where the crate
+had `let _ = seek(..)`).  If the fault-free `new_append` gets as far as its last seek — `d1` being the
+sink after the central directory was parsed, `ds` the directory start —, it succeeds and leaves the sink
+at `ds`; when exactly that seek fails, `new_append` returns the injected I/O error (it used to return
+`Ok` with the sink still at `d1.pos`, behind the old central directory, so that everything written later
+landed behind it). -/
+theorem newAppend_last_seek_reported {d d1 : Dev} {s : WState} {ds : Nat}
     (h : newAppendCore none d = (.ok (s, ds), d1)) :
     newAppend none d = (.ok s, { d1.shift 1 with pos := ds }) ∧
-    newAppend (some d1.calls) d = (.ok s, d1.shift 1) := by
+    newAppend (some d1.calls) d = (.err (.io d.fkind), d1.shift 1) := by
+  have hk : d1.fkind = d.fkind := by
+    have := newAppendCore_uniform.kind none d
+    rw [h] at this
+    exact this
   constructor
   · rw [newAppend_eq, M.bind_apply, h]
     dsimp only
-    rw [M.bind_apply, M.attempt_apply, seek_start_apply, if_neg (by simp)]
+    rw [M.bind_apply, seek_start_apply, if_neg (by simp)]
     rfl
   · rw [newAppend_eq, bind_skip newAppendCore_uniform _ h (Or.inr (Nat.le_refl _))]
     dsimp only
-    rw [M.bind_apply, M.attempt_apply, seek_start_apply, if_pos rfl]
-    rfl
-
-/-- **`new_append` succeeding under a fault**: the fault-free run succeeds with the same writer state;
-the sink is the same too, unless the fault hit the last, ignored seek — then only its position
-differs (`newAppend_ignored_seek`). -/
-theorem newAppend_ok_faultfree {k : Nat} {d d' : Dev} {s : WState}
-    (h : newAppend (some k) d = (.ok s, d')) :
-    ∃ ds d1, newAppendCore none d = (.ok (s, ds), d1) ∧
-      newAppend none d = (.ok s, { d1.shift 1 with pos := ds }) ∧
-      (d' = { d1.shift 1 with pos := ds } ∨ (k = d1.calls ∧ d' = d1.shift 1)) := by
-  rw [newAppend_eq, M.bind_apply] at h
-  cases hc : newAppendCore (some k) d with
-  | mk o d1 =>
-    rw [hc] at h
-    cases o with
-    | err e => cases h
-    | panic p => cases h
-    | ok p =>
-      obtain ⟨s', ds⟩ := p
-      have h0 : newAppendCore none d = (.ok (s', ds), d1) :=
-        ErrOnFire.ok_faultfree newAppendCore_uniform newAppendCore_errOnFire hc
-      dsimp only at h
-      rw [M.bind_apply, M.attempt_apply, seek_start_apply] at h
-      by_cases hk1 : k = d1.calls
-      · subst hk1
-        rw [if_pos rfl] at h
-        cases h
-        exact ⟨ds, d1, h0, (newAppend_ignored_seek h0).1, Or.inr ⟨rfl, rfl⟩⟩
-      · rw [if_neg (by simpa using hk1)] at h
-        cases h
-        exact ⟨ds, d1, h0, (newAppend_ignored_seek h0).1, Or.inl rfl⟩
+    rw [M.bind_apply, seek_start_apply, if_pos rfl, hk]
 
 /-! ### The scenario "open, then read every entry" -/
 
